@@ -188,35 +188,14 @@ func (s *ORSet) Delta() ReplicatedData {
 	if len(s.delta.added) == 0 && len(s.delta.removed) == 0 {
 		return nil
 	}
-	// Build a minimal ORSet representing just the delta.
-	d := &ORSet{
-		entries: make(map[any][]dot, len(s.delta.added)),
-		clock:   make(map[string]uint64),
-		delta:   newORSetDelta(),
-	}
-	for elem, dots := range s.delta.added {
-		cloned := cloneDots(dots)
-		d.entries[elem] = cloned
-		// Include only clock entries for nodes that produced new dots.
-		for _, dt := range cloned {
-			if c, ok := s.clock[dt.nodeID]; ok {
-				if c > d.clock[dt.nodeID] {
-					d.clock[dt.nodeID] = c
-				}
-			}
-		}
-	}
-	// Include clock entries for removed dots so that peers will see
-	// these dots as dominated and drop them during merge. We use each
-	// dot's own counter (not s.clock) to avoid over-claiming causality
-	// which could accidentally dominate unrelated higher-counter entries.
-	for _, dots := range s.delta.removed {
-		for _, dt := range dots {
-			if dt.counter > d.clock[dt.nodeID] {
-				d.clock[dt.nodeID] = dt.counter
-			}
-		}
-	}
+	// The causal clock of an ORSet is a plain version vector: an entry n -> c claims
+	// that every dot (n, 1..c) has been seen, so a peer drops any such dot it holds
+	// that is not listed in the merged value. A value that lists only the new dots
+	// therefore makes peers drop every older, still live, dot of the same node.
+	// Ship the complete state (as MVRegister and ORMap do): it is the smallest value
+	// whose clock tells the truth.
+	d := s.cloneInternal()
+	d.delta = newORSetDelta()
 	return d
 }
 
